@@ -212,30 +212,43 @@ def plan_guard(ck):
     nl = M.nldf_settings("j", "MGGA", "one")
     CLS = {"gaussian": NLDFGaussianPlan, "spline": NLDFSplinePlan}
     B = {"T": True, "F": False}
-    rho_t = (np.array([5.0, 0.3, 1e-12]), np.array([0.1, 0.02, 0.0]), np.array([3.0, 0.05, 0.0]))   # point 0: exponent >> alpha_max
+    RHOCUT = 1e-8
 
-    def construct(cls, **kw):
-        args = (nl, 1, 1e-3, 1.8, 6) if cls is NLDFGaussianPlan else (nl, 1, 1e-3, 1.8, 6)
-        return cls(*args, **kw)
+    def rho_tuple(nspin, where):
+        """per-channel (rho, sigma, tau): two ordinary points and one OFFENDING point whose exponent is far above the
+        largest interpolation exponent; the offending point's TOTAL density is 1e4 / 1.6 / 0.5 x rhocut"""
+        tot = {"dense": 1e4 * RHOCUT, "window": 1.6 * RHOCUT, "below": 0.3 * RHOCUT}[where]
+        rho_t = np.array([0.3, 0.05, tot])
+        sig_t = 0.1 * rho_t ** (8.0 / 3)
+        tau_t = 0.3 * 2.871 * rho_t ** (5.0 / 3) + sig_t / (8 * rho_t)
+        tau_t[-1] = 1e4 * rho_t[-1]                     # tau / rho = 1e4: exponent ~ 1e3 >> alpha_max
+        return (rho_t / nspin, sig_t / nspin ** 2, tau_t / nspin)
 
-    def evaluate(plan):
+    def construct(cls, nspin, **kw):
+        return cls(nl, nspin, 0.003, 1.8, 18, rhocut=RHOCUT, **kw)      # exponents 0.003 .. 65.6
+
+    def evaluate(plan, rt):
         try:
-            out = plan.get_interpolation_arguments(tuple(x.copy() for x in rho_t), i=-1)
+            out = plan.get_interpolation_arguments(tuple(x.copy() for x in rt), i=-1)
         except RuntimeError:
             return "raises", None
         return "value", [np.asarray(o, dtype=float) for o in (out if isinstance(out, (tuple, list)) else [out])]
+    same = lambda a, b: a is not None and b is not None and len(a) == len(b) and all(x.shape == y.shape and np.array_equal(x, y, equal_nan=True) for x, y in zip(a, b))
+    refs = {}
     for c, adm in cases:
         cls = CLS[c["cls"]]
+        nspin, where = int(c["nspin"]), c["where"]
+        rt = rho_tuple(nspin, where)
         bkw = {}
         if c["bsmooth"] == "T":
             bkw["use_smooth_expnt_cutoff"] = True
         if c["braise"] != "unset":
             bkw["raise_large_expnt_error"] = B[c["braise"]]
-        tag = "%s:base(smooth=%s,raise=%s):%s" % (c["cls"], c["bsmooth"], c["braise"],
-                                                  ("new(smooth=%s,raise=%s)" % (c["ksmooth"], c["kraise"])) if c["derive"] else "direct")
+        tag = "%s:nspin=%d:%s:base(smooth=%s,raise=%s):%s" % (c["cls"], nspin, where, c["bsmooth"], c["braise"],
+                                                               ("new(smooth=%s,raise=%s)" % (c["ksmooth"], c["kraise"])) if c["derive"] else "direct")
         ck.count(key=tag)
         try:
-            plan = construct(cls, **bkw)
+            plan = construct(cls, nspin, **bkw)
             if c["derive"]:
                 kkw = {}
                 if c["ksmooth"] != "unset":
@@ -243,20 +256,27 @@ def plan_guard(ck):
                 if c["kraise"] != "unset":
                     kkw["raise_large_expnt_error"] = B[c["kraise"]]
                 plan = plan.new(**kkw)
-            kind, val = evaluate(plan)
+            kind, val = evaluate(plan, rt)
         except Exception as ex:  # noqa: BLE001
             ck.violation("plan-guard:%s:%s" % (type(ex).__name__, tag), {"case": c, "msg": str(ex)[:200]})
             continue
         if kind == "value":
-            # classify against plans constructed DIRECTLY with the same class: the smooth one and the unguarded one
-            _, cap = evaluate(construct(cls, use_smooth_expnt_cutoff=True))
-            _, raw = evaluate(construct(cls, raise_large_expnt_error=False))
-            same = lambda a, b: a is not None and b is not None and len(a) == len(b) and all(x.shape == y.shape and np.array_equal(x, y, equal_nan=True) for x, y in zip(a, b))
-            kinds = {k_ for k_, ref in (("capped", cap), ("unguarded", raw)) if same(val, ref)} or {"unguarded(other)"}
-            # (for the spline plan the damped and the clamped exponent index coincide: the outcome is then either)
-            kind = sorted(kinds & set(adm))[0] if kinds & set(adm) else sorted(kinds)[-1]
+            if where == "below":
+                kind = "masked"
+            else:
+                # classify against plans constructed DIRECTLY with the same class: the smooth one and the unguarded one
+                key = (c["cls"], nspin, where)
+                if key not in refs:
+                    refs[key] = (evaluate(construct(cls, nspin, use_smooth_expnt_cutoff=True), rt)[1],
+                                 evaluate(construct(cls, nspin, raise_large_expnt_error=False), rt)[1])
+                cap, raw = refs[key]
+                kinds = {k_ for k_, ref in (("capped", cap), ("unguarded", raw)) if same(val, ref)} or {"unguarded(other)"}
+                # (for the spline plan the damped and the clamped exponent index coincide: the outcome is then either)
+                kind = sorted(kinds & set(adm))[0] if kinds & set(adm) else sorted(kinds)[-1]
+        elif where == "below":
+            kind = "raises-at-a-masked-point"
         if kind not in set(adm):
-            ck.violation("plan-guard:%s:%s-not-admissible" % ("derived" if c["derive"] else "direct", kind.split("(")[0]),
+            ck.violation("plan-guard:%s:nspin=%d:%s:%s-not-admissible" % ("derived" if c["derive"] else "direct", nspin, where, kind.split("(")[0]),
                          {"case": c, "outcome": kind, "admissible": sorted(adm), "how": tag}, replay={"case": c})
 
 
